@@ -77,6 +77,13 @@ func (k *Keys) GetCursorPos() (x, y int) {
 			return disable()
 		}
 
+		// Anything read along with the cursor answer is user input as well.
+		if remain := rxRcvCursorPos.ReplaceAll(cursor, nil); len(remain) > 0 {
+			k.mutex.RLock()
+			k.buf = append(k.buf, remain...)
+			k.mutex.RUnlock()
+		}
+
 		break
 	}
 
